@@ -149,7 +149,9 @@ fn powif_pdnum(a: f64, b: &NInt) -> NNum {
 fn pow_big_ints(a: &NInt, b: &NInt) -> NNum {
     match a.pow_maybe_recip(b) {
         (false, r) => NNum::Int(r),
-        (true, r) => NNum::from(BigRational::from(r.into_bigint()).recip()),
+        // 1 / a^|b| through NNum's own division: a zero base gets the float fallback of 1/0
+        // instead of panicking in BigRational::recip
+        (true, r) => &NNum::from(1) / &NNum::Int(r),
     }
 }
 
@@ -364,7 +366,11 @@ impl NNum {
             }
             (NNum::Int(a), NNum::Float(b)) => powf_pdnum(nint_to_f64_or_inf(a), *b),
 
-            (NNum::Rational(a), NNum::Int(b)) => NNum::from(Pow::pow(&**a, &*b.to_bigint())),
+            (NNum::Rational(a), NNum::Int(b)) => match b.sign() {
+                // as in pow_big_ints; Ratio's own negative-exponent branch panics on a zero base
+                Sign::Minus => &NNum::from(1) / &NNum::from(Pow::pow(&**a, &*b.magnitude())),
+                _ => NNum::from(Pow::pow(&**a, &*b.to_bigint())),
+            },
             (NNum::Rational(a), NNum::Rational(b)) => {
                 powf_pdnum(rational_to_f64_or_inf(a), rational_to_f64_or_inf(b))
             }
